@@ -433,6 +433,9 @@ type BlobCase struct {
 	Completed bool `json:"completed"`
 	// FailParts > 0: the first FailParts datastore Puts of blob parts fail (-1: all of them).
 	FailParts int `json:"fail_part_puts,omitempty"`
+	// Cron: the periodic clean-up (DeleteOldRequests, normally run by /cron/delete every 5 minutes) runs between the
+	// write and the read; what was written seconds ago is not old and must survive it.
+	Cron bool `json:"cleanup_runs_in_between,omitempty"`
 }
 
 func runBlob(c *BlobCase) vh.Outcome {
@@ -450,6 +453,13 @@ func runBlob(c *BlobCase) vh.Outcome {
 		if err := s.WriteResponse(ctx, in); err != nil {
 			o.Err = fmt.Errorf("WriteResponse of %d bytes failed: %v", c.Size, err)
 			return o
+		}
+		if c.Cron {
+			if err := s.DeleteOldRequests(ctx); err != nil {
+				o.Inconclusive = "the clean-up failed on the fake datastore: " + err.Error()
+				return o
+			}
+			o.Classes = append(o.Classes, "cleanup-between-write-and-read")
 		}
 		if c.FlushMem {
 			f.FlushMemcache()
@@ -469,6 +479,13 @@ func runBlob(c *BlobCase) vh.Outcome {
 	if err := s.WriteRequest(ctx, in); err != nil {
 		o.Err = fmt.Errorf("WriteRequest of %d bytes failed: %v", c.Size, err)
 		return o
+	}
+	if c.Cron {
+		if err := s.DeleteOldRequests(ctx); err != nil {
+			o.Inconclusive = "the clean-up failed on the fake datastore: " + err.Error()
+			return o
+		}
+		o.Classes = append(o.Classes, "cleanup-between-write-and-read")
 	}
 	if c.FlushMem {
 		f.FlushMemcache()
@@ -567,7 +584,8 @@ func runBlobFault(c *BlobCase, f *fakeae.Fake, ctx context.Context, s types.Stor
 func TestPropBlobs(t *testing.T) {
 	sizes := []int{0, 1, 500, 999999, 1000000, 1000001, 1999999, 2000000, 2000001, 3000001, 3500000}
 	vh.Rapid(t, vh.Scale(150, 3000), func(rt *rapid.T) {
-		c := BlobCase{Response: rapid.Bool().Draw(rt, "response"), FlushMem: rapid.Bool().Draw(rt, "flush"), Completed: rapid.Bool().Draw(rt, "completed")}
+		c := BlobCase{Response: rapid.Bool().Draw(rt, "response"), FlushMem: rapid.Bool().Draw(rt, "flush"), Completed: rapid.Bool().Draw(rt, "completed"),
+			Cron: rapid.IntRange(0, 2).Draw(rt, "cron") == 0}
 		switch rapid.IntRange(0, 11).Draw(rt, "any") {
 		case 0, 1:
 			c.Size = rapid.IntRange(0, 2100000).Draw(rt, "anySize")
